@@ -938,6 +938,7 @@ func (x *Exec) applyContractSig(st *State, call *ast.CallExpr, sig *types.Signat
 				if _, isLocal := cenv.lookup(k); !isLocal {
 					cenv.names[k] = v // the callee's parameter names denote the actual arguments
 				}
+				cenv.names["arg_"+k] = v // arg_<param>: the actual argument, also when a local has the parameter's name
 			}
 			for j, cj := range x.prog.expandConj(ca.Expr, 0) {
 				cls := fmt.Sprintf("callsite@%s.%d", c.Local, i+1)
